@@ -381,6 +381,7 @@ func batch(engine, prop, tier string, pe PropEngine) int {
 	unknown := 0
 	reported := 0
 	var vlines []string
+	minStart := time.Now()
 	for _, k := range order {
 		v := groups[k]
 		if fi := MatchFinding(findings, prop, v.Class, v.Signature); fi >= 0 {
@@ -393,7 +394,15 @@ func batch(engine, prop, tier string, pe PropEngine) int {
 			continue
 		}
 		reported++
-		min, steps := Minimise(pe, *v, 300, 90*time.Second)
+		// per class at most 60 s, all classes of a batch together at most 5 min
+		budget := 60 * time.Second
+		if left := 5*time.Minute - time.Since(minStart); left < budget {
+			budget = left
+		}
+		min, steps := *v, 0
+		if budget > time.Second {
+			min, steps = Minimise(pe, *v, 1500, budget)
+		}
 		digest := ""
 		if min.Class != "hang" {
 			if _, d, err := replayTimed(pe, min.Scenario, HangLimit); err == nil {
